@@ -322,6 +322,8 @@ func runC18(r *Run) {
 	c18Concurrent(r, "loading", n/8)
 	c18Concurrent(r, "hybrid", n/8)
 	c18Concurrent(r, "hybrid-loading", n/8)
+	c18Concurrent(r, "loading (BuildWithLoader)", n/16)
+	c18Concurrent(r, "hybrid-loading (Loading.Hybrid)", n/16)
 	if modern {
 		// >= Go 1.24: maphash.Comparable — strings inside structs, floats (+0 == -0), interfaces
 		c18Run[kWithStr](r, cs("struct{int;string} (no StringKey, >=1.24)", false), func(i, p int) kWithStr {
@@ -368,8 +370,14 @@ func c18Concurrent(r *Run, kind string, rounds int) {
 	sec := newMonSecondary[kWithStr, int64](false)
 	sec.slow.Store(true)
 	switch kind {
-	case "loading":
-		c, err := b.Loading(loader).Build()
+	case "loading", "loading (BuildWithLoader)":
+		var c *theine.LoadingCache[kWithStr, int64]
+		var err error
+		if kind == "loading" {
+			c, err = b.Loading(loader).Build()
+		} else {
+			c, err = b.BuildWithLoader(loader)
+		}
 		if err != nil {
 			r.Broken("build: %v", err)
 			return
@@ -385,7 +393,13 @@ func c18Concurrent(r *Run, kind string, rounds int) {
 		get = func(k kWithStr) (int64, bool) { v, ok, err := c.Get(k); return v, ok && err == nil }
 		closer = c.Close
 	default:
-		c, err := b.Hybrid(sec).Loading(loader).Build()
+		var c *theine.HybridLoadingCache[kWithStr, int64]
+		var err error
+		if kind == "hybrid-loading" {
+			c, err = b.Hybrid(sec).Loading(loader).Build()
+		} else {
+			c, err = b.Loading(loader).Hybrid(sec).Build()
+		}
 		if err != nil {
 			r.Broken("build: %v", err)
 			return
@@ -394,7 +408,7 @@ func c18Concurrent(r *Run, kind string, rounds int) {
 		closer = c.Close
 	}
 	defer closer()
-	if kind != "loading" {
+	if !strings.HasPrefix(kind, "loading") {
 		for i := 0; i < rounds*G; i++ {
 			if kind == "hybrid" || i%2 == 0 { // hybrid-loading: half from the secondary store, half from the loader
 				_ = sec.Set(mk(i), f(mk(i)), 1, 0)
